@@ -80,7 +80,8 @@ class C15(Check):
     rule = ("amt_parse: EVERY string over {0,1,9,.,-,x,space} up to length 5 (thorough: 6) x 5 denominations x "
             "{Amount, SignedAmount}; every such string up to length 4 followed by 9 suffix variants through FromStr; "
             "2^63-2 .. 2^64+1, 10^19, 10^20-1, (2^64-1)/10 and neighbours written with the point at every position, with "
-            "0..14 appended zeros, optional sign, all denominations; zero-padded texts of 49/50/51 bytes (leading, "
+            "0..14 appended zeros, optional sign, all denominations; the same magnitudes +-2 as quantities written exactly in "
+            "each denomination (plus leading zeros, one more / fewer trailing zeros, sign, suffix); zero-padded texts of 49/50/51 bytes (leading, "
             "trailing, with sign); non-ASCII digits / separators / multi-byte texts around 50 bytes; seeded random "
             "digit strings with random point, sign and junk; amt_fmt (plain / suffix / Display) for boundary and random "
             "amounts, and amt_parse of each formatted text plain, with its suffix and with every alias; "
@@ -129,6 +130,18 @@ class C15(Check):
                             for d in dens:
                                 for t in "us":
                                     add(t, d, sg + body, "boundary")
+        # the same magnitudes as QUANTITIES: q piconero written exactly in each denomination, with the usual variations
+        for v in BOUND:
+            for dl in (-2, -1, 0, 1, 2):
+                for d in dens:
+                    base = fmt_expected(d, "plain", v + dl)
+                    vs = {base, "0" + base, "000" + base, base + ("0" if "." in base else "."), base.rstrip("0") if "." in base else base,
+                          (base.rstrip("0").rstrip(".") if "." in base else base)}
+                    for body in sorted(vs):
+                        for sg in ("", "-"):
+                            for t in "us":
+                                add(t, d, sg + body, "boundary-exact")
+                            add("s", "with_suffix", sg + body + " " + d, "boundary-exact")
         # zero padding up to the length limit
         for total in (48, 49, 50, 51, 52):
             for body in ("1", "9223372036854775807", "9223372036854775808", "0"):
